@@ -160,6 +160,14 @@ CHECKS = {
    note="Go cannot be told which map order to use, so repetition samples the orders (N = 20 / K = 6 quick, 200 / 30 thorough). The text of the emitted IR is not compared (only behaviour).",
    technique="TLA+ model of the nondeterministic choice points checked by TLC over all orders + TLC trace validation of repeated real compilations",
    ref="§4 C16"),
+ "C17": dict(
+   text="Every covered Duden function (82 call forms over Listen, Texte, Sortierung: value and Referenz variants) is called from generated driver programs with every combination of an argument "
+        "vocabulary (lists of length 0..4 over Zahl/Text/Buchstabe, texts with multi-byte characters, indices and counts -1..7; seeded sample per function when the product is large), one "
+        "process per call; result, arguments afterwards and failure are one event each, validated by TLC against DudenSeq.tla (sequence operations, documented-domain guards).",
+   note="Kommazahl-valued functions (Mathe, Statistik, most of Zahlen) and Zeichen are not covered; 'sorted' is checked as sorted permutation, 'compare' by sign; outside the documented "
+        "domain nothing is compared.",
+   technique="TLA+ specification of the functions as sequence operations + TLC trace validation of calls made by compiled driver programs",
+   ref="§4 C17"),
 }
 PENDING = {}
 
